@@ -81,6 +81,10 @@ fn canon_into(v: &Value, out: &mut String) {
         }
         Value::Decimal(d) => {
             out.push('d');
+            // the sign is kept even for zero (-0.0 and 0.0 are == but render differently)
+            if d.is_sign_negative() && d.mantissa() == 0 {
+                out.push('-');
+            }
             out.push_str(&d.mantissa().to_string());
             out.push('e');
             out.push_str(&d.scale().to_string());
@@ -127,6 +131,31 @@ fn canon_into(v: &Value, out: &mut String) {
         #[allow(unreachable_patterns)]
         _ => out.push_str("?unknown-variant"),
     }
+}
+
+/// A copy of the value in which everything that compares `==` has one representation:
+/// -0.0 becomes 0.0 and decimals lose trailing zeros (d1.00 -> d1, -0.0 -> 0).
+pub fn eq_normalised(v: &Value) -> Value {
+    match v {
+        Value::Float(f) if *f == 0.0 => Value::Float(0.0),
+        Value::Decimal(d) => {
+            let n = d.normalize();
+            if n.is_zero() {
+                Value::Decimal(Decimal::ZERO)
+            } else {
+                Value::Decimal(n)
+            }
+        }
+        Value::Vec(items) => Value::Vec(items.iter().map(eq_normalised).collect()),
+        Value::Map(m) => Value::Map(m.iter().map(|(k, x)| (k.clone(), eq_normalised(x))).collect()),
+        other => other.clone(),
+    }
+}
+
+/// Canonical rendering under which `==` values coincide (used where a script must not tell
+/// equal-but-differently-represented arguments apart).
+pub fn canon_eq(v: &Value) -> String {
+    canon(&eq_normalised(v))
 }
 
 /// Canonical, injective rendering of a `Value` (bit-exact floats,
